@@ -25,6 +25,10 @@ def make_raw(n, seed):
       'f': (np.arange(n * 6, dtype=np.float32).reshape(n, 2, 3) + 0.5 + o),
       'b': np.ones((n,), dtype=np.bool_),
       'u': ((np.arange(n, dtype=np.uint8) % 200) + 1 + o).reshape(n, 1).astype(np.uint8),
+      # fixed-width string / unicode / complex features: "zero" is the empty string / 0j
+      's': np.array([b'k%d' % ((i + o) % 90) for i in range(n)], dtype='S3'),
+      't': np.array(['u%d' % ((i + o) % 9) for i in range(n)], dtype='U2').reshape(n, 1),
+      'c': (np.arange(n, dtype=np.complex64) + 1 + 1j * (o + 1)),
   }
 
 
@@ -78,10 +82,26 @@ def run_case(case):
   from fedjax.core import client_datasets as cds
   n, bs, buckets, mode, chain = case['N'], case['B'], case['buckets'], case['mode'], case['chain']
   seed = case.get('seed', 0)
-  raw = make_raw(n, seed)
-  snap = {k: v.copy() for k, v in raw.items()}
   pre = cds.BatchPreprocessor(CHAINS[chain])
-  ds = fedjax.ClientDataset(raw, pre)
+  if case.get('via'):
+    # the dataset is a (stepped / reversed / nested) slice of a larger one; the reference slices the numpy table
+    from mc.checks.c04_shuffle_batching import VIAS
+    big, slices = VIAS[case['via']]
+    raw = make_raw(big, seed)
+    ds = fedjax.ClientDataset(raw, pre)
+    snap = {k: v.copy() for k, v in raw.items()}
+    sel = snap
+    for sl in slices:
+      ds = ds[slice(*sl)]
+      sel = {k: v[slice(*sl)] for k, v in sel.items()}
+    n = len(sel['i'])
+    require(len(ds) == n, 'len() of a sliced dataset differs from the number of rows it holds', n, len(ds))
+    raw_of_ds = ds.raw_examples
+    snap = {k: np.ascontiguousarray(v).copy() for k, v in sel.items()}
+  else:
+    raw = make_raw(n, seed)
+    snap = {k: v.copy() for k, v in raw.items()}
+    ds = fedjax.ClientDataset(raw, pre)
   want = ref_processed(snap, chain)
   if mode == 'padded':
     if case.get('hp'):
@@ -126,7 +146,7 @@ def run_case(case):
   require(set(ds.raw_examples) == set(snap), 'the dataset\'s raw_examples gained or lost features during batching',
           sorted(snap), sorted(ds.raw_examples))
   for k in snap:
-    require(same(np.asarray(ds.raw_examples[k]), snap[k]), 'raw_examples[%r] was mutated by batching' % k)
+    require(same(np.ascontiguousarray(ds.raw_examples[k]), snap[k]), 'raw_examples[%r] was mutated by batching' % k)
 
   if mode == 'padded':
     sizes = ref.padded_sizes(n, bs, buckets)
@@ -159,13 +179,58 @@ def run_case(case):
               [size] + list(w.shape[1:]), list(v.shape))
       require(same(np.ascontiguousarray(v[:real]), np.ascontiguousarray(w[s:e])),
               'batch %d feature %s: real rows differ from examples [%d:%d)' % (bi, k, s, e),
-              w[s:e].tolist(), v[:real].tolist())
-      require(not np.any(v[real:]), 'batch %d feature %s: padded rows are not all zero' % (bi, k),
-              0, v[real:].tolist())
+              core.jsonable(w[s:e].tolist()), core.jsonable(v[:real].tolist()))
+      require(same(np.ascontiguousarray(v[real:]), np.zeros(v[real:].shape, v.dtype)),
+              'batch %d feature %s: padded rows are not all zero' % (bi, k), 0, core.jsonable(v[real:].tolist()))
   return {'outcome': [len(first), sizes], 'nontrivial': (n % bs != 0) or (mode == 'padded' and buckets > 1)}
 
 
-SUBS = {'seq': run_case}
+def _flat(batches):
+  return [{k: (str(np.asarray(v).dtype), list(np.asarray(v).shape), np.asarray(v).tobytes().hex()) for k, v in b.items()}
+          for b in batches]
+
+
+def routes_case(case):
+  """Every way of expressing one effective hyper-parameter assignment (kwargs / object / object + overrides, including
+  overrides back to a default value) must give the batches of the plain object route, which 'seq' compares with the
+  reference partition; the batch count and sizes are compared with the reference here as well."""
+  import fedjax
+  from fedjax.core import client_datasets as cds
+  from mc import routes
+  n, mode = case['N'], case['mode']
+  ds = fedjax.ClientDataset(make_raw(n, case.get('seed', 0)))
+  if mode == 'padded':
+    domain, cls, fn = {'batch_size': [2, 4], 'num_batch_size_buckets': [1, 2, 3]}, cds.PaddedBatchHParams, ds.padded_batch
+  else:
+    domain, cls, fn = {'batch_size': [2, 3], 'drop_remainder': [False, True]}, cds.BatchHParams, ds.batch
+  evals, outs = 0, set()
+  for eff in routes.assignments(domain):
+    if 'effective' in case and case['effective'] != eff:
+      continue
+    want = None
+    for label, base, over in routes.routes(eff, domain):
+      if 'route' in case and case['route'] != [label, base, over]:
+        if label != 'object':
+          continue
+      nc = dict(case, effective=eff, route=[label, base, over])
+      got = _flat(list(routes.invoke(fn, cls, base, over)))
+      if label == 'object' or want is None:
+        want = _flat(list(routes.invoke(fn, cls, eff, {})))
+        if mode == 'padded':
+          sizes = ref.padded_sizes(n, eff['batch_size'], eff['num_batch_size_buckets'])
+        else:
+          sizes = [e - s for s, e in ref.plain_batches(n, eff['batch_size'], eff['drop_remainder'])]
+        require([b['i'][1][0] for b in want] == sizes, 'object route: batch sizes differ from the reference', sizes,
+                [b['i'][1][0] for b in want], case=nc)
+      require(got == want, 'invocation route %s (base %r, overrides %r) does not give the batches of the effective '
+              'hyper-parameters %r' % (label, base, over, eff), [b['i'][1][0] for b in want], [b['i'][1][0] for b in got],
+              case=nc)
+      evals += 1
+      outs.add(core.digest([sorted(eff.items()), [b['i'][1][0] for b in got]]))
+  return {'evals': evals, 'outcomes': sorted(outs), 'nontrivial': True}
+
+
+SUBS = {'seq': run_case, 'routes': routes_case}
 
 
 def plan(ctx):
@@ -176,7 +241,8 @@ def plan(ctx):
   chains = list(CHAINS)
   ctx.rule = ('full product N x batch_size x {padded x buckets, plain keep/drop remainder} x preprocessor chain '
               '(x hparams-object vs kwargs invocation for the first chain); distinct = distinct case tuples; '
-              'non-trivial = N mod batch_size != 0 or (padded and buckets > 1)')
+              'non-trivial = N mod batch_size != 0 or (padded and buckets > 1); routes: every (base object, keyword '
+              'overrides) pair over a 2x3 / 2x2 value domain that expresses the same effective hyper-parameters')
   ctx.assumptions += ['numpy slicing/concatenation are trusted', 'feature values are distinct and non-zero '
                       '(offset by VERIF_SEED) so a lost, duplicated, reordered or non-zero padded row is visible']
 
@@ -190,5 +256,11 @@ def plan(ctx):
           for mode in ('plain_keep', 'plain_drop'):
             yield {'N': n, 'B': bs, 'buckets': 1, 'mode': mode, 'chain': chain, 'hp': hp, 'seed': ctx.seed}
   ctx.run('seq', gen(), reverse_pass=True)
+  from mc.checks.c04_shuffle_batching import VIAS
+  ctx.run('seq', [{'N': -1, 'via': via, 'B': bs, 'buckets': k, 'mode': mode, 'chain': chain, 'seed': ctx.seed}
+                  for via in VIAS for bs in (1, 2, 3, 4, 5) for chain in ('none', 'cast_add')
+                  for mode, ks in (('padded', (1, 2, 3)), ('plain_keep', (1,)), ('plain_drop', (1,))) for k in ks])
+  ctx.run('routes', [{'N': n, 'mode': m, 'seed': ctx.seed} for n in ((0, 1, 5, 7, 9) if thorough else (0, 5, 7))
+                     for m in ('padded', 'plain')])
   ctx.extra['bounds'] = {'N': [min(ns), max(ns)], 'batch_size': [min(bss), max(bss)],
                          'buckets': [min(bucket_list), max(bucket_list)], 'chains': chains}
